@@ -1,11 +1,14 @@
 """Shared helpers for concrete oracles (real code, clean interpreter)."""
+_parsers = {}
 
 
 def make_program(src, runner, functions=None, annotations=None, package=None):
     import celpy
     R = celpy.InterpretedRunner if runner == "interp" else celpy.CompiledRunner
-    celpy.CELParser.CEL_PARSER = None  # factor out the parser-singleton history dependence (that is C05's subject)
+    # factor out the parser-singleton history dependence (that is C05's subject): one Lark object per tree class
+    celpy.CELParser.CEL_PARSER = _parsers.get(runner)
     env = celpy.Environment(package=package, annotations=annotations, runner_class=R)
+    _parsers[runner] = celpy.CELParser.CEL_PARSER
     return env.program(env.compile(src), functions=functions)
 
 
